@@ -89,10 +89,11 @@ type State struct {
 	base   map[string]Term // lazily created defaults (shared by clones); replaced on havoc-all
 	locals map[ssa.Value]*Value
 	alloc  Term
+	havocked bool // the heap was havocked as a whole since function entry (defaults created now are not pre-state values)
 }
 
 func (s *State) Clone() *State {
-	n := &State{heap: make(map[string]Term, len(s.heap)), base: s.base, locals: make(map[ssa.Value]*Value, len(s.locals)), alloc: s.alloc}
+	n := &State{heap: make(map[string]Term, len(s.heap)), base: s.base, locals: make(map[ssa.Value]*Value, len(s.locals)), alloc: s.alloc, havocked: s.havocked}
 	for k, v := range s.heap {
 		n.heap[k] = v
 	}
@@ -574,7 +575,7 @@ func (x *Exec) heapGet(st *State, key string) Term {
 	}
 	// heap typing of the pre-state: every reference stored in the initial heap denotes nil or an object that existed
 	// at function entry (a Go heap never holds a pointer to an object that has not been allocated yet)
-	if cp, ok := x.eng.heapComps[key]; ok && (cp.Kind == "ref" || cp.Kind == "slice.ref") && x.entryAlloc.S != "" {
+	if cp, ok := x.eng.heapComps[key]; ok && (cp.Kind == "ref" || cp.Kind == "slice.ref") && x.entryAlloc.S != "" && !st.havocked {
 		r := Term{S: "r$y", Sort: SInt}
 		i := Term{S: "i$y", Sort: SInt}
 		switch srt {
